@@ -3,7 +3,6 @@
 package vh
 
 import (
-	"sync/atomic"
 	"bytes"
 	"crypto/ecdsa"
 	"encoding/base64"
@@ -13,6 +12,7 @@ import (
 	"sort"
 	"strings"
 	"sync"
+	"sync/atomic"
 
 	badgerdb "github.com/dgraph-io/badger/v2"
 	"github.com/ethereum/go-ethereum/crypto"
